@@ -474,6 +474,19 @@ func prop(c Case) error {
 			return fmt.Errorf("hex Encode of a plain line string: %v", err)
 		}
 	}
+	if ob, err := cd.marshal(other, bo); err == nil {
+		for i := 0; i < 2; i++ {
+			if _, err := cd.unmarshal(ob); err != nil {
+				return fmt.Errorf("Unmarshal of a plain line string: %v", err)
+			}
+			if _, err := cd.read(bytes.NewReader(ob)); err != nil {
+				return fmt.Errorf("Read of a plain line string: %v", err)
+			}
+		}
+	}
+	if err := sameModel("the geometry returned by Unmarshal, looked at again after later decodes", exp, dec, true); err != nil {
+		return err
+	}
 	if !bytes.Equal(got, want) {
 		return fmt.Errorf("the slice returned by %s Marshal changed when another geometry was marshalled afterwards:\n now  % x\n was  % x", c.Mode, got, want)
 	}
